@@ -136,6 +136,8 @@ def judge_comments(src, col=None, max_variants=None, picks=None):
     base = render(base_diags)
     if len([d for d in base if d[0] not in ("unused_ignore", "bare_ignore")]) < 2:
         return None
+    if render(check(src)) != base:
+        return None  # the program itself is not deterministic (e.g. it prints the current time)
     lines = src.split("\n")
     if lines and lines[-1] == "":
         lines = lines[:-1]
@@ -231,7 +233,7 @@ def judge_disable(src, subsets, col=None):
     fails = []
     base = render(check(src))
     real = [d for d in base if d[0] not in ("unused_ignore", "bare_ignore")]
-    if len(real) < 2:
+    if len(real) < 2 or render(check(src)) != base:
         return None
     d = tempfile.mkdtemp(prefix="pv_c11_")
     try:
